@@ -37,7 +37,9 @@ META = dict(
         '(4,2,1), (5,3,0)}; tails in {1,2}; report all/last; 1 geo per group '
         'vs split layout (2 geos per group, unassigned geo, unassigned-'
         'period rows, shuffled)',
-        thorough='adds (5,2,2), (6,3,2), (8,2,1), (10,4,0)'),
+        thorough='adds (5,2,2), (6,2,2), (8,3,1), (10,4,0) (4 analysed days: '
+        'with 5 days at n_pre = 6 the tolerance form of the design-side '
+        'equality stays unknown at 120 s)'),
     outside='n_pre > 10, more than 5 analysed days, more than 2 geos per '
     'group; the numerical accuracy of statsmodels / scipy; tails=1 with '
     'level < 1/2 (lower is by definition above the median there)',
@@ -515,7 +517,7 @@ def jobs(tier, seed):
   out = []
   shapes = [(3, 1, 0), (3, 2, 0), (4, 1, 1), (4, 2, 1), (5, 3, 0)]
   if tier == 'thorough':
-    shapes += [(5, 2, 2), (6, 3, 2), (8, 2, 1), (10, 4, 0)]
+    shapes += [(5, 2, 2), (6, 2, 2), (8, 3, 1), (10, 4, 0)]
   for (n, T, C) in shapes:
     for tails in (1, 2):
       for rep in (('all', 'last') if (n, T, C) != (3, 1, 0) else ('last',)):
